@@ -1,1 +1,99 @@
-import OxiddModel.Bdd.Model
+import OxiddModel.Bdd.Ite
+import OxiddModel.Bdd.Canon
+
+/-!
+# Headline theorems for the simple BDD rules (properties C01/C02, tree level)
+
+`σ` ranges over all assignments of the levels, `f g h` over all trees: the statements hold for
+every operand tuple and every diagram depth. Together with `canon`, `*_sem` + `*_nf` determine
+the result *tree* of every operation: it is the unique normal form of the specified function.
+-/
+namespace OxiddModel.Bdd
+open BDD
+
+/-- C02: `not` is pointwise negation. -/
+theorem bdd_not_sem (f : BDD) (σ : Nat → Bool) : (applyNot f).eval σ = !f.eval σ :=
+  applyNot_eval σ f
+
+/-- C02: every binary connective (`and, or, nand, nor, xor, equiv, imp, imp_strict`) takes under
+every assignment the value of the propositional connective applied to the operand values. -/
+theorem bdd_apply_sem (op : Op) (f g : BDD) (σ : Nat → Bool) :
+    (applyBin op f g).eval σ = op.sem (f.eval σ) (g.eval σ) :=
+  applyBin_eval op f g σ
+
+/-- the connectives' truth tables are the propositional ones (finite table, by `decide`) -/
+theorem op_sem_table :
+    (∀ a b, Op.and.sem a b = (a && b)) ∧ (∀ a b, Op.or.sem a b = (a || b)) ∧
+    (∀ a b, Op.nand.sem a b = !(a && b)) ∧ (∀ a b, Op.nor.sem a b = !(a || b)) ∧
+    (∀ a b, Op.xor.sem a b = (a ^^ b)) ∧ (∀ a b, Op.equiv.sem a b = !(a ^^ b)) ∧
+    (∀ a b, Op.imp.sem a b = (!a || b)) ∧ (∀ a b, Op.impStrict.sem a b = (!a && b)) := by
+  decide
+
+/-- C02: `ite` is pointwise if-then-else, for every operand triple. -/
+theorem bdd_ite_sem (f g h : BDD) (σ : Nat → Bool) :
+    (applyIte f g h).eval σ = if f.eval σ then g.eval σ else h.eval σ :=
+  applyIte_eval f g h σ
+
+/-- C03/C01: results are again ordered and reduced. -/
+theorem bdd_not_nf (f : BDD) (n : Nat) (hf : NF n f) : NF n (applyNot f) := applyNot_nf hf.1
+theorem bdd_apply_nf (op : Op) (f g : BDD) (n : Nat) (hf : NF n f) (hg : NF n g) :
+    NF n (applyBin op f g) := applyBin_nf op f g n hf hg
+theorem bdd_ite_nf (f g h : BDD) (n : Nat) (hf : NF n f) (hg : NF n g) (hh : NF n h) :
+    NF n (applyIte f g h) := applyIte_nf f g h n hf hg hh
+
+/-- C02: constants and (negated) variables. -/
+theorem bdd_const_var_sem (l : Nat) (σ : Nat → Bool) :
+    (BDD.leaf true).eval σ = true ∧ (BDD.leaf false).eval σ = false ∧
+    (var l).eval σ = σ l ∧ (notVar l).eval σ = !σ l := by
+  simp [eval, var, notVar]
+
+theorem bdd_var_nf (l : Nat) : NF l (var l) ∧ NF l (notVar l) := by
+  refine ⟨⟨.node (Nat.le_refl _) .leaf .leaf, ?_⟩, ⟨.node (Nat.le_refl _) .leaf .leaf, ?_⟩⟩ <;>
+    simp [var, notVar, Reduced]
+
+/-- C02: the cofactors (the two children of the root) are the Shannon cofactors with respect to the
+top-most variable. -/
+theorem bdd_cofactors_shannon (l : Nat) (t e : BDD) (n : Nat) (h : NF n (.node l t e)) (σ : Nat → Bool) :
+    t.eval σ = (BDD.node l t e).eval (upd σ l true) ∧ e.eval σ = (BDD.node l t e).eval (upd σ l false) := by
+  cases h.1 with
+  | node _ ht he => exact ⟨(eval_node_upd_true ht σ).symm, (eval_node_upd_false he σ).symm⟩
+
+/-- C01 (tree level): two normal-form diagrams are equal iff they denote the same function. -/
+theorem bdd_canonical (a b : BDD) (n : Nat) (ha : NF n a) (hb : NF n b) :
+    a = b ↔ ∀ σ, a.eval σ = b.eval σ := nf_eq_iff a b n ha hb
+
+/-- C01+C02: the result of a connective is *the* normal form of the specified function — any other
+normal-form diagram of that function is the same tree (so results do not depend on how the operands
+were obtained). -/
+theorem bdd_apply_unique (op : Op) (f g r : BDD) (n : Nat) (hf : NF n f) (hg : NF n g) (hr : NF n r)
+    (h : ∀ σ, r.eval σ = op.sem (f.eval σ) (g.eval σ)) : r = applyBin op f g :=
+  (nf_eq_iff r _ n hr (applyBin_nf op f g n hf hg)).mpr (fun σ => by rw [h, applyBin_eval])
+
+theorem bdd_sat_valid (a : BDD) (n : Nat) (ha : NF n a) :
+    (a ≠ .leaf false ↔ ∃ σ, a.eval σ = true) ∧ (a = .leaf true ↔ ∀ σ, a.eval σ = true) := by
+  refine ⟨?_, nf_true_iff a n ha⟩
+  rw [Ne, nf_false_iff a n ha]
+  constructor
+  · intro h
+    apply Classical.byContradiction
+    intro hne
+    exact h (fun σ => by
+      cases hv : a.eval σ
+      · rfl
+      · exact absurd ⟨σ, hv⟩ hne)
+  · rintro ⟨σ, hσ⟩ h; rw [h σ] at hσ; cases hσ
+
+/-- non-vacuity: a concrete shared, level-skipping diagram in normal form, and a non-trivial
+instance of the operator theorems -/
+example : NF 0 (BDD.node 0 (.node 2 (.leaf true) (.leaf false)) (.node 1 (.leaf false) (.node 2 (.leaf true) (.leaf false)))) := by
+  refine ⟨.node (by omega) (.node (by omega) .leaf .leaf) (.node (by omega) .leaf (.node (by omega) .leaf .leaf)), ?_⟩
+  simp [Reduced]
+
+example : applyBin .and (var 0) (var 1) = .node 0 (.node 1 (.leaf true) (.leaf false)) (.leaf false) := by
+  symm
+  apply bdd_apply_unique .and (var 0) (var 1) _ 0 ((bdd_var_nf 0).1) ⟨(bdd_var_nf 1).1.1.mono (by omega), (bdd_var_nf 1).1.2⟩
+  · refine ⟨.node (by omega) (.node (by omega) .leaf .leaf) .leaf, ?_⟩
+    simp [Reduced]
+  · intro σ; simp [eval, var, Op.sem]
+
+end OxiddModel.Bdd
